@@ -136,6 +136,9 @@ def check_merge(ctx, plain, out, info, path=()):
         ctx.fail("merging changed a node type at %s" % list(path), info)
         return
     if plain["c"] == "AndOperation":
+        if {k: v for k, v in plain.items() if k != "ch"} != {k: v for k, v in out.items() if k != "ch"}:
+            ctx.fail("merging changed the AND node itself (layout / position) at %s" % list(path), info)
+            return
         a_r = [c for c in plain["ch"] if one_sided(c)]
         a_o = [c for c in plain["ch"] if not one_sided(c)]
         b_r = [c for c in out["ch"] if c["c"] == "Range" and not any(c is x for x in [])]
